@@ -1197,13 +1197,13 @@ Lemma dur_open s hs d g slot p r w a tr c n :
   Dur (wfs (fst (step (mkWorld s hs) (Open slot p r w a tr c n)))) (fst (dstep d (Open slot p r w a tr c n))) g.
 Proof.
   intros HF HD Hcl. cbn [op_classes] in Hcl.
-  apply app_eq_nil in Hcl as [Hv Hcl]. apply app_eq_nil in Hcl as [_ Hrc].
-  apply when_nil in Hv. apply negb_false_iff in Hv. apply when_nil in Hrc.
+  apply app_eq_nil in Hcl as [_ Hrc]. apply when_nil in Hrc.
   set (t := dw d) in *.
   assert (Hd : fst (dstep d (Open slot p r w a tr c n)) = with_dw d (fst (sstep t (Open slot p r w a tr c n)))).
   { unfold dstep. fold t. destruct (sstep t (Open slot p r w a tr c n)) as [t1 x]. cbn [fst]. destruct (is_err x); reflexivity. }
-  rewrite Hd. clear Hd. cbn [step sstep wfs whs]. unfold sopen. rewrite Hv. cbn [negb].
-  unfold open_file. rewrite (inv_fx _ _ _ HF p). fold t.
+  rewrite Hd. clear Hd. cbn [step sstep wfs whs]. unfold sopen, open_file.
+  destruct (valid_open r w a tr c n) eqn:Hv; cbn [negb]; [|cbn [fst snd wfs]; same_tree HD].
+  rewrite (inv_fx _ _ _ HF p). fold t.
   destruct (nget (names t) p) as [[|i]|] eqn:En.
   - assert (Hpar : parent_is_dir t p = true) by (eapply inv_pc; eauto).
     rewrite Hpar. cbn [negb].
